@@ -269,6 +269,7 @@ func (g *GroupSet) resultWriteUnformatted(query *Query, rows []result, outFd *os
 	}
 
 	if query.Outfile.AppendMode {
+		vhook.At("outfile.step", "append.write")
 		if _, err := outFd.WriteString(appendBuf.String()); err != nil {
 			return err
 		}
